@@ -168,3 +168,11 @@ Example C18_nonvacuous_pack_union :
   udet env0 (VSeq KList 0 [VLeaf 1%Z]) None [OList] true
        (TUnion [TSeq OList (TLeaf LDecimal); TSeq OList TAtom]) = false.
 Proof. vm_compute. repeat split; reflexivity. Qed.
+
+(* Deserialization consults no dialect at all: no_copy_collections (call dialect, Config.dialect,
+   format / codec default dialect) and dialect support have no influence on the result; only the
+   field types of the class table matter. *)
+Theorem C18_decode_dialect_independent : forall E E' t w n,
+  fields_agree E E' -> unpack_top E t w n = unpack_top E' t w n.
+Proof. exact unpack_dialect_independent. Qed.
+Print Assumptions C18_decode_dialect_independent.
